@@ -204,3 +204,18 @@ Example C03_tcp_stall_now :
               /\ cph st = CExpired /\ queue st = [Data 1; Data 2; CloseReq 3] /\ step (current_cfg TCP 3 0 0) st CForce = None) /\
   (exists st, run (current_cfg TCP 3 0 0) init w_tcp_stall_now = Some st /\ rd st = REof /\ complete (current_cfg TCP 3 0 0) st /\ discarded st = false).
 Proof. exact tcp_stall_now_example. Qed.
+
+(* the sender never lets a successful Write take the last slot of its send queue: after every history of Writes (any
+   fragment counts, a Write that is not admitted waits) and drains, closeWithError's Insert of the close request succeeds,
+   so a graceful Close queues the request BEHIND the data instead of writing it at once and discarding the queue; with the
+   admission test Remaining() >= n instead of Remaining() > n a history exists after which the queue is full (the driver's
+   sendq-full scenarios look for a successful Write that leaves Remaining() = 0 and close at that instant) *)
+Theorem C03_close_request_always_queued : forall evs : list qev,
+  q_close_queued segment_tree_capacity (q_run true segment_tree_capacity evs) = true.
+Proof. exact close_request_always_queued. Qed.
+Print Assumptions C03_close_request_always_queued.
+
+Theorem C03_close_request_slot_needs_strict_admission_refuted :
+  exists evs, q_close_queued segment_tree_capacity (q_run false segment_tree_capacity evs) = false.
+Proof. exact close_request_slot_refuted. Qed.
+Print Assumptions C03_close_request_slot_needs_strict_admission_refuted.
